@@ -70,7 +70,7 @@ C14_OPS = (
     base_nobase("O14.1", "root_create_mknod_kinds", "create(File|Fifo|CharacterDevice|BlockDevice): exactly one mknodat(resolve_parent fd, base, S_IF*|perm&!S_IFMT, dev verbatim / 0)")
     + base_nobase("O14.2", "root_create_dir", "create(Directory): exactly one mkdirat(parent fd, base, perm&!S_IFMT)")
     + base_nobase("O14.3", "root_create_symlink", "create(Symlink): exactly one symlinkat(target verbatim, parent fd, base)")
-    + base_nobase("O14.5", "root_create_file", "create_file: exactly one openat(parent fd, base, flags|O_CREAT|O_NOFOLLOW|O_CLOEXEC|O_NOCTTY, perm) and the returned fd is that open's fd")
+    + base_nobase("O14.5", "root_create_file", "create_file: exactly one openat(parent fd, base, flags|O_CREAT|O_NOFOLLOW [+O_CLOEXEC|O_NOCTTY below the wrapper: O5.1b], perm) and the returned fd is that open's fd")
     + base_nobase("O14.6", "root_remove_inode", "remove_file/remove_dir: exactly one unlinkat(parent fd, base, 0|AT_REMOVEDIR)")
 )
 
@@ -99,9 +99,9 @@ RA_STUBS = ["syscalls::unlinkat", "syscalls::openat_follow", "Dir::read_from"]
 C13_OBS = [
     ob("O13.1a", DIR + "dir_remove_all_unlink_ok", "utils::remove_all(dir, name), every name <= L, unlinkat succeeds: refused names ('', '.', '..', any '/') make ZERO syscalls and fail; otherwise exactly unlinkat(dir,name,0) and Ok", stubs=RA_STUBS, covers_may_be_unsat=["rmdir-ed", "scanned", "scan open failed"], cost=5),
     ob("O13.1b", DIR + "dir_remove_all_rmdir_ok", "... unlink fails (any errno), rmdir succeeds: unlinkat(0) then unlinkat(AT_REMOVEDIR), Ok", stubs=RA_STUBS, covers_may_be_unsat=["unlinked", "scanned", "scan open failed"], cost=5),
-    ob("O13.1f", DIR + "dir_remove_all_scan_enotempty", "... unlink and rmdir fail with ENOTEMPTY (non-empty directory), scan open succeeds: the open is openat(dir, name, O_DIRECTORY|O_NOFOLLOW|O_CLOEXEC|O_NOCTTY), listing failure is reported, sub-directory fd closed", stubs=RA_STUBS, covers_may_be_unsat=["unlinked", "rmdir-ed", "refused", "scan open failed"], cost=6),
+    ob("O13.1f", DIR + "dir_remove_all_scan_enotempty", "... unlink and rmdir fail with ENOTEMPTY (non-empty directory), scan open succeeds: the open is openat(dir, name, O_DIRECTORY|O_NOFOLLOW), listing failure is reported, sub-directory fd closed", stubs=RA_STUBS, covers_may_be_unsat=["unlinked", "rmdir-ed", "refused", "scan open failed"], cost=6),
     ob("O13.1g", DIR + "dir_remove_all_open_eacces", "... unlink, rmdir and the scan open all fail with EACCES: EACCES is reported (never Ok), exactly three calls, scan open flags as above", stubs=RA_STUBS, covers_may_be_unsat=["unlinked", "rmdir-ed", "scanned"], cost=6),
-    ob("O13.1c", DIR + "dir_remove_all_open_fail", "... unlink, rmdir and the scan open all fail with arbitrary errnos: ENOENT anywhere => Ok, scan open is O_DIRECTORY|O_NOFOLLOW|O_CLOEXEC on (dir,name), other errno => that errno", stubs=RA_STUBS, covers_may_be_unsat=["unlinked", "scanned"], tiers=("thorough",), timeout={"thorough": 3000}, cost=6),
+    ob("O13.1c", DIR + "dir_remove_all_open_fail", "... unlink, rmdir and the scan open all fail with arbitrary errnos: ENOENT anywhere => Ok, scan open is O_DIRECTORY|O_NOFOLLOW on (dir,name), other errno => that errno", stubs=RA_STUBS, covers_may_be_unsat=["unlinked", "scanned"], tiers=("thorough",), timeout={"thorough": 3000}, cost=6),
     ob("O13.1d", DIR + "dir_remove_all_scan", "... scan open succeeds, directory listing fails with arbitrary errno: ENOENT => final unlink/rmdir attempt, else error; sub-directory fd closed", stubs=RA_STUBS, covers_may_be_unsat=["unlinked", "scan open failed"], tiers=("thorough",), cost=8),
     ob("O13.1e", DIR + "dir_remove_all_any", "... all fault combinations in one query", stubs=RA_STUBS, tiers=("thorough",), cost=10),
 ]
@@ -164,11 +164,11 @@ C14_CAPI = [
 MK_STUBS = ["Resolver::resolve_partial", "Handle::reopen", "syscalls::mkdirat", "syscalls::openat_follow"]
 C12_OBS = [
     ob("O12.1", ROOT + "root_mkdir_all_bad_mode", "mkdir_all with EVERY mode having a bit outside 0o1777: InvalidArgument and zero lookups/syscalls", stubs=["Resolver::resolve_partial"], cost=2),
-    ob("O12.2a", ROOT + "root_mkdir_all_tail_ok", "mkdir_all, partial lookup stopped with ENOENT, EVERY remaining tail <= L and every valid mode, all kernel steps succeed: '..' among the components => ENOENT and nothing created; otherwise exactly mkdirat(cur,c,mode verbatim) + openat(cur,c,O_DIRECTORY|O_NOFOLLOW|O_CLOEXEC|O_NOCTTY) per non-empty non-'.' component, chained through the opened fds; returned handle = last opened fd; intermediates closed", stubs=MK_STUBS, covers_may_be_unsat=["aborted midway"], cost=8),
+    ob("O12.2a", ROOT + "root_mkdir_all_tail_ok", "mkdir_all, partial lookup stopped with ENOENT, EVERY remaining tail <= L and every valid mode, all kernel steps succeed: '..' among the components => ENOENT and nothing created; otherwise exactly mkdirat(cur,c,mode verbatim) + openat(cur,c,O_DIRECTORY|O_NOFOLLOW) per non-empty non-'.' component, chained through the opened fds; returned handle = last opened fd; intermediates closed", stubs=MK_STUBS, covers_may_be_unsat=["aborted midway"], cost=8),
     ob("O12.2b", ROOT + "root_mkdir_all_tail_eexist", "... the first mkdirat answers EEXIST: tolerated, walk continues exactly as above", stubs=MK_STUBS, covers_may_be_unsat=["aborted midway", "nothing to create"], cost=8),
     ob("O12.2c", ROOT + "root_mkdir_all_tail_mkdir_fails", "... the first mkdirat fails with EACCES: abort with that errno after that single call, descriptors closed", stubs=MK_STUBS, covers_may_be_unsat=["one directory created", "two directories created"], cost=7),
     ob("O12.2d", ROOT + "root_mkdir_all_tail_open_fails", "... the open of the first created component fails: abort, descriptors closed", stubs=MK_STUBS, covers_may_be_unsat=["one directory created", "two directories created"], cost=7),
-    ob("O12.2", ROOT + "root_mkdir_all_tail", "mkdir_all when the partial lookup stops with ENOENT and EVERY remaining tail <= L bytes: '..' among the components => ENOENT and nothing created; otherwise exactly mkdirat(cur,c,mode) + openat(cur,c,O_DIRECTORY|O_NOFOLLOW|O_CLOEXEC|O_NOCTTY) per non-empty non-'.' component, chained through the opened fds; EEXIST tolerated, any other errno aborts; handle returned = last opened fd; intermediates closed [all fault combinations in one query]", stubs=MK_STUBS, tiers=("thorough",), timeout={"thorough": 5400}, mem_gb=24, cost=9),
+    ob("O12.2", ROOT + "root_mkdir_all_tail", "mkdir_all when the partial lookup stops with ENOENT and EVERY remaining tail <= L bytes: '..' among the components => ENOENT and nothing created; otherwise exactly mkdirat(cur,c,mode) + openat(cur,c,O_DIRECTORY|O_NOFOLLOW) per non-empty non-'.' component, chained through the opened fds; EEXIST tolerated, any other errno aborts; handle returned = last opened fd; intermediates closed [all fault combinations in one query]", stubs=MK_STUBS, tiers=("thorough",), timeout={"thorough": 5400}, mem_gb=24, cost=9),
     ob("O12.3", ROOT + "root_mkdir_all_complete", "mkdir_all when the path already resolves: O_DIRECTORY reopen of the handle, zero mkdirat", stubs=MK_STUBS, covers_may_be_unsat=["one directory", "two directories", "dotdot refused", "aborted midway"], cost=5),
     ob("O12.4", ROOT + "root_mkdir_all_partial_other_error", "mkdir_all when the partial lookup stopped for a reason other than ENOENT: that error, nothing created", stubs=["Resolver::resolve_partial"], covers_may_be_unsat=["nothing to create", "one directory", "two directories", "dotdot refused", "aborted midway"], tiers=("thorough",), cost=5),
     ob("O12.5", ROOT + "root_mkdir_all_resolver_error", "mkdir_all when the resolver fails: error, nothing created", stubs=["Resolver::resolve_partial"], covers_may_be_unsat=["nothing to create", "one directory", "two directories", "dotdot refused", "aborted midway"], tiers=("thorough",), cost=4),
